@@ -65,3 +65,12 @@ pub fn union_reinterpret(a: Bits, size_b: usize) -> (b: Bits)
     requires a.size == size_b,
     ensures b.size == size_b,
 { unimplemented!() }
+
+// mem::transmute of a reference to a reference of another type with the same total extent: the address is unchanged
+impl Sl {
+    #[verifier::external_body]
+    pub fn retype_ref(self, len: usize, stride: usize) -> (r: Sl)
+        requires len * stride == self.len * self.stride,        // mem::transmute checks the (thin) pointer size only; the extents must agree
+        ensures r.base == self.base, r.off == self.off, r.len == len, r.stride == stride,
+    { unimplemented!() }
+}
